@@ -47,6 +47,30 @@ Theorem C15_unlocked_find_or_append_refuted :
 Proof. exact unlocked_find_or_append_refuted. Qed.
 Print Assumptions C15_unlocked_find_or_append_refuted.
 
+(* ---- NewStack(name, depth) makes a counter that identifies a call stack by its
+   first depth program counters: for every history of full call stacks, two Incs
+   hit one counter exactly when the stacks agree on their first depth pcs. *)
+Theorem C15_depth_identity :
+  forall (symb : list N -> list frame) (name : bytes) (d : nat) (fulls : list (list N)) (i j : nat) (p q : list N),
+  nth_error fulls i = Some p -> nth_error fulls j = Some q ->
+  let hits := snd (run symb name [] (map (firstn d) fulls)) in
+  nth_error hits i = nth_error hits j <-> firstn d p = firstn d q.
+Proof. exact depth_identity. Qed.
+Print Assumptions C15_depth_identity.
+
+(* ---- ReadStack (countertest.ReadStackCounter) reports a counter under the
+   EXPANDED name, whatever the state of the counter file: for every counter of
+   the cache, DecodeStack of its name is the uncompressed rendering of its own
+   stack's frames. *)
+Theorem C15_readstack_key_expanded :
+  forall (symb : list N -> list frame) (name : bytes) (hist : list (list N)) (c : nat) (pcs : list N) (nm : bytes),
+  Forall (fun f => fn_roundtrips (fr_func f) = true) (symb pcs) -> prefix_ok name = true ->
+  is_truncated name (symb pcs) = false ->
+  nth_error (fst (run symb name [] hist)) c = Some (pcs, nm) ->
+  decode_stack nm = render_plain name (symb pcs).
+Proof. exact readstack_key_expanded. Qed.
+Print Assumptions C15_readstack_key_expanded.
+
 (* ---- different stacks hit different counters ... *)
 Theorem C15_different_stack_different_counter :
   forall (symb : list N -> list frame) (name : bytes) (hist : list (list N)) (i j : nat) (p q : list N) (c : nat),
